@@ -96,6 +96,14 @@ impl<T> Mutex<T> {
     }
 }
 
+#[cfg(aranya_core_verif)]
+impl<T: ?Sized> Mutex<T> {
+    /// Verification only: the current value of the futex word.
+    pub(crate) fn verif_key(&self) -> u32 {
+        self.key.load(Ordering::SeqCst)
+    }
+}
+
 /// The result of locking a [`Mutex`].
 pub type LockResult<Guard> = Result<Guard, Infallible>;
 
@@ -181,6 +189,8 @@ impl<T: ?Sized> Mutex<T> {
         use crate::mutex::macos::futex_wait;
 
         // Fast path: the mutex is unlocked.
+        #[cfg(aranya_core_verif)]
+        crate::verif::yield_point("fast");
         let mut wait = match self.key.compare_exchange(
             Self::MUTEX_UNLOCKED,
             Self::MUTEX_LOCKED,
@@ -194,7 +204,11 @@ impl<T: ?Sized> Mutex<T> {
         const PASSIVE_SPIN: i32 = 5;
         loop {
             for _ in 0..PASSIVE_SPIN {
+                #[cfg(aranya_core_verif)]
+                crate::verif::yield_point("load");
                 while self.key.load(Ordering::Relaxed) == Self::MUTEX_UNLOCKED {
+                    #[cfg(aranya_core_verif)]
+                    crate::verif::yield_point("cas");
                     if likely!(
                         self.key
                             .compare_exchange(
@@ -209,10 +223,14 @@ impl<T: ?Sized> Mutex<T> {
                     }
                     // SAFETY: FFI call, no invariants.
                     unsafe { libc::sched_yield() };
+                    #[cfg(aranya_core_verif)]
+                    crate::verif::yield_point("load");
                 }
             }
 
             // Could not grab the lock; go to sleep.
+            #[cfg(aranya_core_verif)]
+            crate::verif::yield_point("swap");
             if self.key.swap(Self::MUTEX_SLEEPING, Ordering::SeqCst) == Self::MUTEX_UNLOCKED {
                 return;
             }
@@ -242,6 +260,8 @@ impl<T: ?Sized> Mutex<T> {
         #[cfg(target_os = "macos")]
         use crate::mutex::macos::futex_wake;
 
+        #[cfg(aranya_core_verif)]
+        crate::verif::yield_point("unlock");
         match self.key.swap(Self::MUTEX_UNLOCKED, Ordering::SeqCst) {
             Self::MUTEX_UNLOCKED => ::buggy::bug!("unlock of locked mutex"),
             Self::MUTEX_SLEEPING => futex_wake(&self.key, 1)?,
@@ -280,6 +300,13 @@ mod linux {
     }
 
     pub fn futex_wait(uaddr: &AtomicU32, val: u32) {
+        #[cfg(aranya_core_verif)]
+        {
+            crate::verif::yield_point("fwait");
+            if crate::verif::futex_wait(uaddr, val) {
+                return;
+            }
+        }
         let _ = futex(
             ptr::from_ref::<AtomicU32>(uaddr),
             FUTEX_WAIT,
@@ -291,6 +318,13 @@ mod linux {
     }
 
     pub fn futex_wake(uaddr: &AtomicU32, cnt: u32) -> Result<(), Bug> {
+        #[cfg(aranya_core_verif)]
+        {
+            crate::verif::yield_point("wake");
+            if crate::verif::futex_wake(uaddr, cnt) {
+                return Ok(());
+            }
+        }
         futex(
             ptr::from_ref::<AtomicU32>(uaddr),
             FUTEX_WAKE,
